@@ -38,7 +38,8 @@ INT_DTYPES = ['i4', 'i2', 'i8', 'u1', 'u2']
 
 def translate(ctx):
     res = {}
-    for name, gen, src in (('Smooth', T.generate, 'pydl/smooth.py'), ('Rebin', T.generate_rebin, 'pydl/rebin.py')):
+    for name, gen, src in (('Smooth', T.generate, 'pydl/smooth.py'), ('Rebin', T.generate_rebin, 'pydl/rebin.py'),
+                           ('Uniq', T.generate_uniq, 'pydl/uniq.py'), ('Median', T.generate_median, 'pydl/median.py')):
         text, info = gen(C.REPO)
         path = os.path.join(C.COQ, 'Generated', name + '.v')
         if text is not None:
